@@ -198,7 +198,7 @@ func parseContractComments(cs *ContractSet, fset *token.FileSet, pkgPath string,
 					cl := &Clause{Kind: "fdecreases", Tags: ctags, Text: rest, File: fname, Line: line, Loop: -1}
 					cur.Clauses = append(cur.Clauses, cl)
 					lastClause = cl
-				case "requires", "ensures", "assert", "modifies", "reads", "assume":
+				case "requires", "ensures", "checks", "assert", "modifies", "reads", "assume":
 					cl := &Clause{Kind: kw, Tags: ctags, Text: rest, File: fname, Line: line, Loop: -1}
 					cl.Label, cl.Text = splitLabel(cl.Text)
 					cur.Clauses = append(cur.Clauses, cl)
